@@ -187,6 +187,19 @@ Definition compute_regressor (ft : list Q) (os : nat) (min_onset : Q) (hs : list
   let cols := regressor_columns (hr_grid ft os min_onset) ft hs evs in
   if is_fir then cols else orthogonalize cols.
 
+(* ---------------------------------------------------------------- _convolve_regressors (design_matrix.py l.139-200) *)
+(* a paradigm is a LIST of (condition id, onset, duration, amplitude) in the order the user listed the events
+   (event paradigms: duration 0; no amplitude: 1).  For every id of `cids` (np.unique: sorted ids) the events of
+   that id are taken IN LISTING ORDER as one (onsets, durations, amplitudes) triple - onset, duration and
+   amplitude of an event stay together - and handed to compute_regressor; blocks are stacked left to right. *)
+Definition cond_events (cid : string) (par : list (string * event)) : list event :=
+  map snd (filter (fun p => String.eqb (fst p) cid) par).
+Definition convolve_regressors (ft : list Q) (os : nat) (min_onset : Q) (hs : list (list Q)) (is_fir : bool)
+           (cids : list string) (par : list (string * event)) : list (list Q) :=
+  flat_map (fun c => compute_regressor ft os min_onset hs is_fir (cond_events c par)) cids.
+(* the FIR kernels of _hrf_kernel('fir', tr, oversampling, delays) *)
+Definition fir_kernels (delays : list nat) (os : nat) : list (list Q) := map (fun d => fir_kernel d os) delays.
+
 (* ---------------------------------------------------------------- names *)
 Open Scope string_scope.
 Inductive hrf_model := Canonical | CanonicalDeriv | Spm | SpmTime | SpmTimeDisp | Fir.
